@@ -200,7 +200,11 @@ func genShape(t *rapid.T, label string) (shape, []pt) {
 		default:
 			s.Center = pt{rapid.Float64Range(-180, 180).Draw(t, label+".clon"), rapid.Float64Range(-80, 80).Draw(t, label+".clat")}
 		}
-		s.Meters = rapid.SampledFrom([]float64{1, 100, 10e3, 500e3, 3000e3, 8000e3}).Draw(t, label+".r")
+		s.Meters = rapid.SampledFrom([]float64{1, 100, 10e3, 500e3, 3000e3, 8000e3, 11000e3, 15000e3, 19500e3}).Draw(t, label+".r")
+		if rapid.IntRange(0, 3).Draw(t, label+".rcont") == 0 {
+			// log-uniform between 1 m and half the circumference
+			s.Meters = math.Pow(10, rapid.Float64Range(0, 7.3).Draw(t, label+".rexp"))
+		}
 		// ring of points around the circle at 0.9r and 1.1r
 		var near []pt
 		dlat := s.Meters / 111195.0
@@ -233,7 +237,7 @@ func genShape(t *rapid.T, label string) (shape, []pt) {
 
 func TestC18Geo(t *testing.T) {
 	ev := Ev("C18")
-	ev.SetRule("rapid: 2-4 shapes per case (boxes incl. date-line crossing, pole touching, thin; circles 1 m .. 8000 km incl. date line and poles; star-shaped polygons with 3-8 vertices) and 6-20 documents with 0-3 geopoints each (uniform on the sphere, specials at +-180/+-90, points at 1e-5..5 degrees from the shape's vertices/centre) on upsidedown, scorch and scorch+s2; " +
+	ev.SetRule("rapid: 2-4 shapes per case (boxes incl. date-line crossing, pole touching, thin; circles 1 m .. 19500 km (fixed ladder or log-uniform; beyond a quarter of the circumference the circle is larger than a hemisphere) incl. date line and poles; star-shaped polygons with 3-8 vertices) and 6-20 documents with 0-3 geopoints each (uniform on the sphere, specials at +-180/+-90, points at 1e-5..5 degrees from the shape's vertices/centre) on upsidedown, scorch and scorch+s2; " +
 		"oracle = exact geometry with a margin band (box/polygon 2e-6 deg; circle haversine with both ellipsoid radii, 0.5% + 1 m): Yes docs must be hits, No docs must not; point encoding round trip within one quantum; geo-distance sort is non-decreasing within the same band; " +
 		"non-trivial = >=1 Yes and >=1 No document and >=1 multi-valued document")
 	ev.Assume("points inside the margin band are not judged (stated resolution of the encoding)")
